@@ -193,13 +193,13 @@ var specs = map[string]spec{
 		Assumptions: commonAssumptions, Plain: true, QuickStride: 1, ThoroughStride: 1, QuickDeadline: 420, ThoroughDeadline: 3000,
 	},
 	"C09": {
-		LevelText: "three complementary exhaustive explorations on one freshly compiled (cold) bundle: (1) every interleaving of two logical threads (three in the thorough tier), each running one of 11 operations (renders of the same and different templates over shared data and a shared message bundle, a failing render and a failure two calls deep, a template drawing randomInt, JavaScript generation under both formatters and through a shared Generator, compilation of an independent bundle whose globals come from text and from a map shared with other bundles), every execution starting from restored package-level variables, under a controlled scheduler whose yield points are every 4th (preemption bound 1) and every 32nd (bound 2) instrumented function entry / loop iteration of each thread, plus thread start, exit and channel operations, up to the preemption bound, each thread's output compared with its solo output; (2) solo runs in which a deep digest of all shared state is taken at the yield points and at every synchronisation operation - no unsynchronised step may change it (on the pinned tree the render code has no synchronisation, so a write to shared state is a data race, and steps that write nothing shared commute; sync and sync/atomic are replaced by shims whose operations are scheduling points; state changed under a lock, and the contents of pools, are left to (1) and (3)); (3) the same bodies free-running on real goroutines in a -race build, the detector's reports being violations",
+		LevelText: "three complementary exhaustive explorations on one freshly compiled (cold) bundle: (1) every interleaving of two logical threads (three in the thorough tier), each running one of 12 operations (compilation of bundles with syntax errors, renders of the same and different templates over shared data and a shared message bundle, a failing render and a failure two calls deep, a template drawing randomInt, JavaScript generation under both formatters and through a shared Generator, compilation of an independent bundle whose globals come from text and from a map shared with other bundles), every execution starting from restored package-level variables, under a controlled scheduler whose yield points are every 4th (preemption bound 1) and every 32nd (bound 2) instrumented function entry / loop iteration of each thread, plus thread start, exit and channel operations, up to the preemption bound, each thread's output compared with its solo output; (2) solo runs in which a deep digest of all shared state is taken at the yield points and at every synchronisation operation - no unsynchronised step may change it (on the pinned tree the render code has no synchronisation, so a write to shared state is a data race, and steps that write nothing shared commute; sync and sync/atomic are replaced by shims whose operations are scheduling points; state changed under a lock, and the contents of pools, are left to (1) and (3)); (3) the same bodies free-running on real goroutines in a -race build, the detector's reports being violations",
 		LevelNote: "the cooperative scheduler's hand-offs hide races from the detector, hence the separate free-running -race pass (a detector report is never a false positive; silence there is supporting evidence only); scheduler granularity is function entry / loop iteration; preemption bound 2 for the render/render scenarios and 1 for the others in the quick tier",
 		Technique: "stateless model checking under a controlled scheduler (preemption-bounded DFS), shared-state digest invariant, plus a free-running race-detector pass",
 		Level:     "model_checking",
 		Rule:      "states = thread-operation scenarios (ordered pairs/triples of operations) + solo operations; transitions = complete schedules executed (counter schedules) + digested solo steps; every scenario is non-trivial (>=2 threads contend for the same compiled bundle)",
 		Bounds: map[string]string{
-			"quick":    "11 operations; all 121 ordered pairs on 2 threads; every schedule with <=1 preemption at every 4th yield point (every point inside a critical section) and <=2 preemptions at every 32nd (48th / 96th when one / both operations compile a bundle); a non-canonical successor at a blocking switch counts as a deviation; solo digest every third step; race pass 121 scenarios x 3 goroutines x 30 cold starts",
+			"quick":    "12 operations; all 144 ordered pairs on 2 threads; every schedule with <=1 preemption at every 4th yield point (every point inside a critical section) and <=2 preemptions at every 32nd (48th / 96th when one / both operations compile a bundle); a non-canonical successor at a blocking switch counts as a deviation; solo digest every third step; race pass 144 scenarios x 3 goroutines x 30 cold starts",
 			"thorough": "3 threads; every schedule with <=1 preemption at every instrumented point and <=2 preemptions at every 12th (each capped at 2000000 schedules per worker and scenario); race pass x 200 cold starts",
 		},
 		Assumptions: commonAssumptions, Plain: true, QuickStride: 1, ThoroughStride: 1, QuickDeadline: 420, ThoroughDeadline: 3000, Race: true, OrderSensitive: true,
